@@ -4,6 +4,8 @@
 # demonstration fails with it and passes without it; then stores it under /verif/seeded/<prop>-<mN>/.
 export GOFLAGS=-mod=mod GOPROXY=off GOSUMDB=off GOTOOLCHAIN=local
 prop=$1; m=$2; dir=$3
+# every go test runs in its own network namespace (the suite binds fixed ports, e.g. 4152)
+NS="unshare -rn /verif/tools/netns_run.sh"
 src=/tmp/mut/$prop/out/$m
 id=$prop-$m
 wt=/tmp/confirm/$id
@@ -16,13 +18,13 @@ demo=$(ls $src/*demo* 2>/dev/null | head -1)
 tests=$(grep -oE '^func (Test[A-Za-z0-9_]+)' $demo | awk '{print $2}' | paste -sd'|')
 cp $demo $wt/$dir/zz_seed_demo_test.go
 cd $wt
-clean_out=$(timeout 300 go test -vet=off -count=1 -timeout 120s -run "^($tests)\$" ./$dir 2>&1); clean_rc=$?
+clean_out=$(timeout 300 $NS go test -vet=off -count=1 -timeout 120s -run "^($tests)\$" ./$dir 2>&1); clean_rc=$?
 git apply $src/patch.diff || { echo "$id: patch does not apply"; exit 1; }
 build_out=$(go build ./... 2>&1); build_rc=$?
-mut_out=$(timeout 300 go test -vet=off -count=1 -timeout 120s -run "^($tests)\$" ./$dir 2>&1); mut_rc=$?
+mut_out=$(timeout 300 $NS go test -vet=off -count=1 -timeout 120s -run "^($tests)\$" ./$dir 2>&1); mut_rc=$?
 rm -f $wt/$dir/zz_seed_demo_test.go
-suite_out=$(timeout 1500 go test -vet=off -count=1 -timeout 25m ./... 2>&1); suite_rc=$?
-if [ $suite_rc -ne 0 ]; then suite_out=$(timeout 1500 go test -vet=off -count=1 -timeout 25m ./... 2>&1); suite_rc=$?; fi
+suite_out=$(timeout 1500 $NS go test -vet=off -count=1 -timeout 25m ./... 2>&1); suite_rc=$?
+if [ $suite_rc -ne 0 ]; then suite_out=$(timeout 1500 $NS go test -vet=off -count=1 -timeout 25m ./... 2>&1); suite_rc=$?; fi
 status=rejected
 if [ $clean_rc -eq 0 ] && [ $build_rc -eq 0 ] && [ $mut_rc -ne 0 ] && [ $suite_rc -eq 0 ]; then status=confirmed; fi
 echo "$id: clean_demo_rc=$clean_rc build_rc=$build_rc mutant_demo_rc=$mut_rc suite_rc=$suite_rc => $status"
